@@ -34,8 +34,13 @@ pub fn check_structure(spec: &CfmSpec) -> Check {
     ensure_eq!(m.header.map_generation_date, spec.date, "cfm-layout:date@0");
     ensure_eq!(m.header.map_generation_time, spec.minutes, "cfm-layout:minutes@2");
     ensure_eq!(m.header.elevation_segment_count as usize, spec.segments.len(), "cfm-layout:segment_count@4");
-    let want = epoch_millis(spec.date, spec.minutes as u64 * 60_000);
-    ensure_eq!(m.header.date_time().map(|d| d.timestamp_millis()), Some(want), "cfm:date_time");
+    if spec.date >= 1 && spec.minutes < 1440 {
+        let want = epoch_millis(spec.date, spec.minutes as u64 * 60_000);
+        ensure_eq!(m.header.date_time().map(|d| d.timestamp_millis()), Some(want), "cfm:date_time");
+    } else {
+        // outside the documented date-time domain (C08) the accessor only has to return
+        let _ = no_panic("cfm::Header::date_time", || m.header.date_time())?;
+    }
     ensure_eq!(m.elevation_segments.len(), spec.segments.len(), "cfm:segment-count");
     let base = m.elevation_segments.first().map(|s| s.elevation_segment_number).unwrap_or(0);
     ensure!(base <= 1, "cfm:segment-numbering-base", "first segment is numbered {}", base);
@@ -191,6 +196,7 @@ pub fn check_zone_count(c: &ZoneCountCase) -> Check {
 }
 
 pub fn run(ctx: &Ctx, rep: &mut Report) {
+    rep.journal_cases = true;
     rep.trust("independent wire encoder: 3-halfword header, per azimuth a zone count followed by (op code, end range) pairs");
     rep.assume("segment numbers must be consecutive; the first may be 0 or 1 (the statement fixes order, not base)");
 
@@ -203,6 +209,11 @@ pub fn run(ctx: &Ctx, rep: &mut Report) {
             fixed.push(CfmCase { spec, cut_selectors: sel });
         }
         fixed.push(big_zone_case(ctx.seed));
+        // degenerate headers: every header field zero (a six-zero-byte body is a well-formed empty map)
+        fixed.push(CfmCase { spec: CfmSpec { date: 0, minutes: 0, segments: vec![] }, cut_selectors: vec![1, 2, 3] });
+        fixed.push(CfmCase { spec: CfmSpec { date: 0, minutes: 0, segments: vec![vec![Vec::new(); 360]] }, cut_selectors: vec![] });
+        fixed.push(CfmCase { spec: CfmSpec { date: 0, minutes: 1, segments: vec![] }, cut_selectors: vec![] });
+        fixed.push(CfmCase { spec: CfmSpec { date: 65_535, minutes: 65_535, segments: vec![] }, cut_selectors: vec![] });
         let mut cuts = 0u64;
         for c in &fixed {
             cuts += 1 + count_cuts(c).min(2000);
@@ -211,7 +222,7 @@ pub fn run(ctx: &Ctx, rep: &mut Report) {
                 rep.record_failure("bodies-and-truncations", f, json!(c));
             }
         }
-        rep.enumerated("fixed-shapes", "seeded bodies with S = 0, 1, 2, 5, 255 segments and one body whose azimuths carry up to 65535 zones, each with its truncation sweep", cuts, cuts, false);
+        rep.enumerated("fixed-shapes", "seeded bodies with S = 0, 1, 2, 5, 255 segments, one body whose azimuths carry up to 65535 zones, and four degenerate headers (all-zero six-byte body, zero date with one empty segment, zero date with time 1, all-ones date/time), each with its truncation sweep", cuts, cuts, false);
         rep.sample("fixed-shapes", json!({"segments": 255}));
     }
 
